@@ -341,6 +341,11 @@ pub fn check_c19(w: &mut World, i: usize) -> R<()> {
         }
         if let Some(t) = m.verif_tree(o) {
             for (r, p, _) in t {
+                // the identifier is a pure function of the content digest and of the parent's identifier
+                let want = model::child_rev(model::rev_digest(&r), p.as_deref());
+                if want != r {
+                    return viol("C19", format!("revision {} of {:?} is recorded with parent {:?}; the identifier derived from its digest and that parent is {}", r, o, p, want));
+                }
                 revs.push(r);
                 if let Some(p) = p {
                     revs.push(p);
